@@ -1,7 +1,8 @@
 """Block-structured programs as lists of (depth, kind, text) lines - one statement (or brace line) per line, with the exact nesting
 depth of every line known by construction.  Used by C18 for C++, Java and C (closed-form indentation and invariance under
 re-indentation).  kind: 'stmt' statement start, 'hdr' a compound-statement header line, 'close' a line starting with '}',
-'case' a case label, 'func' function header, 'fclose' function close.
+'case' a case label, 'label' a goto label, 'func' function header, 'fclose' function close, 'sclose' the '}' of a switch, 'chdr' / 'cclose' the first and
+last line of the class that wraps a Java program.
 """
 from hypothesis import strategies as st
 
@@ -12,6 +13,7 @@ class G:
     def __init__(self, draw, lang, max_depth, allow_switch=True, force_braces=False):
         self.draw, self.lang, self.max_depth, self.allow_switch = draw, lang, max_depth, allow_switch
         self.force_braces = force_braces
+        self.labels = False
         self.n = 0
 
     def pick(self, seq):
@@ -23,6 +25,9 @@ class G:
     def body(self, d, n=None, no_block=False):
         out = []
         for _ in range(n or self.draw(st.integers(1, 3))):
+            if self.labels and self.lang in ('C', 'CPP') and not no_block and self.draw(st.integers(0, 11)) == 0:
+                self.n += 1
+                out.append((d, 'label', 'lab%d:' % self.n))       # a goto label in front of a statement of this block
             out += self.stmt(d, no_block)
         return out
 
@@ -85,7 +90,7 @@ class G:
             for c in range(self.draw(st.integers(1, 3))):
                 t += [(d, 'case', 'case %d:' % c)] + self.body(d + 1, self.draw(st.integers(1, 2)), no_block=True) + [(d + 1, 'stmt', 'break;')]
             t += [(d, 'case', 'default:'), (d + 1, 'stmt', 'break;')]
-            return t + [(d, 'close', '}')]
+            return t + [(d, 'sclose', '}')]          # (the closing brace of a switch: its own kind, some brace styles treat it differently)
         if k == 11 and not no_block and not self.force_braces:       # (a block directly under a case label is laid out as the case's braces)
             return [(d, 'hdr', '{')] + self.body(d + 1) + [(d, 'close', '}')]
         if k == 12 and self.lang in ('CPP', 'JAVA'):
@@ -100,11 +105,12 @@ class G:
 
 
 @st.composite
-def program(draw, lang, max_depth=6, allow_switch=True, force_braces=False):
+def program(draw, lang, max_depth=6, allow_switch=True, force_braces=False, labels=False):
     g = G(draw, lang, draw(st.integers(2, max_depth)), allow_switch, force_braces)
+    g.labels = labels
     lines = []
     if lang == 'JAVA':
-        lines.append((0, 'hdr', 'class A {'))       # (indent_class is false by default: the class body is not indented)
+        lines.append((0, 'chdr', 'class A {'))       # (indent_class is false by default: the class body is not indented)
     if lang == 'CPP':
         lines.append((0, 'stmt', 'struct E { int code; };'))
         lines.append((0, 'stmt', 'extern int g(int, int);'))
@@ -113,7 +119,7 @@ def program(draw, lang, max_depth=6, allow_switch=True, force_braces=False):
     for i in range(draw(st.integers(1, 3))):
         lines += g.function(i, 0)
     if lang == 'JAVA':
-        lines.append((0, 'close', '}'))
+        lines.append((0, 'cclose', '}'))
     return lines
 
 
